@@ -333,6 +333,20 @@ func (w *World) ReloadDuring(k int) {
 	})
 }
 
+// StatsDuring makes the operator poll the server statistics (what GET /api/v1/stats does: Server.CurrentStats) k
+// scheduler steps from now, i.e. while connections come and go.
+func (w *World) StatsDuring(k int) {
+	si := w.Srv
+	if si == nil || si.S == nil {
+		return
+	}
+	w.Sim.Go("operator-stats", false, func() {
+		Delay(k)
+		_ = si.S.CurrentStats()
+		w.Probe("fault_operator_stats_poll")
+	})
+}
+
 // Violate records a violation.
 func (w *World) Violate(sig, format string, args ...any) {
 	if len(w.viol) < 20 {
